@@ -357,3 +357,49 @@ def task_analyze(task):
             gr["instances"].append(inst)
     res["counter_after"] = getattr(identifiers, "_count_unique_var", None)
     return res
+
+
+def task_cli_goals(task):
+    """run the real command line  polar.py <file> --goals ... [--at_n k]  in a subprocess and parse
+    the printed results: {goal: {"special": [...], "general": str}} (+ at_n values)"""
+    import os
+    import re
+    import subprocess
+    import tempfile
+    repo = [p for p in sys.path if os.path.exists(os.path.join(p, "polar.py"))][0]
+    with tempfile.NamedTemporaryFile("w", suffix=".prob", delete=False) as f:
+        f.write(task["text"])
+        path = f.name
+    try:
+        cmd = [sys.executable, os.path.join(repo, "polar.py"), path, "--goals"] + [f"E({g})" for g in task["goals"]]
+        if task.get("at_n") is not None:
+            cmd += ["--at_n", str(task["at_n"])]
+        r = subprocess.run(cmd, cwd=repo, stdout=subprocess.PIPE, stderr=subprocess.STDOUT, text=True, timeout=task.get("timeout", 100) - 5)
+    finally:
+        os.unlink(path)
+    out = r.stdout
+    res = {"returncode": r.returncode, "printed": {}, "at_n": {}, "tail": out[-800:]}
+    for g in task["goals"]:
+        gs = str(sp.sympify(g))
+        for line in out.splitlines():
+            line = re.sub(r"\x1b\[[0-9;]*m", "", line).strip()
+            m = re.match(r"^(?:E\((.*?)\)|(.*?)) = (.*)$", line)
+            if not m:
+                continue
+            lhs = m.group(1) if m.group(1) is not None else m.group(2)
+            if "|" in lhs:
+                mm = re.match(r"^(.*?) \| n=(\d+)$", lhs)
+                if mm and _same_monom(mm.group(1), gs):
+                    res["at_n"][g] = m.group(3).split(" ≅ ")[0].strip()
+                continue
+            if _same_monom(lhs, gs):
+                parts = m.group(3).split("; ")
+                res["printed"][g] = {"special": parts[:-1], "general": parts[-1]}
+    return res
+
+
+def _same_monom(a, b):
+    try:
+        return sp.simplify(sp.sympify(a) - sp.sympify(b)) == 0
+    except Exception:
+        return False
